@@ -31,7 +31,7 @@ pub fn run(seed: u64, n: usize, outdir: &str, _corpus: Option<&str>) -> std::io:
     let mut dist: BTreeMap<String, usize> = BTreeMap::new();
     let mut samples = vec![];
     let mut master = Rng::new(seed ^ 0xC20);
-    let pool = ["名詞", "動詞", "*", "a", "b", "一般", "x y", "\u{3000}", "b ", " c"];
+    let pool = ["名詞", "動詞", "*", "a", "b", "一般", "x y", "\u{3000}", "b ", " c", "固有,地名", "q\"t", "a,"];
     for _ in 0..n {
         let sub = master.next();
         let mut rng = Rng(sub);
@@ -57,8 +57,13 @@ pub fn run(seed: u64, n: usize, outdir: &str, _corpus: Option<&str>) -> std::io:
             4 => { rng.shuffle(&mut ldef); }                                      // any order of lines
             _ => {}
         }
-        let table_txt = |t: &Vec<(u32, Vec<String>)>, bad: bool| -> String {
-            let mut s: String = t.iter().map(|(id, f)| format!("{} {}\n", id, f.join(","))).collect();
+        // the feature columns of an id line are CSV cells: quoted when they hold ',' or '"' (and sometimes by choice)
+        let mut qrng = Rng(sub ^ 0x51);
+        let mut table_txt = |t: &Vec<(u32, Vec<String>)>, bad: bool| -> String {
+            let mut cell = |c: &String| -> String {
+                if c.contains(',') || c.contains('"') || qrng.chance(1, 8) { format!("\"{}\"", c.replace('"', "\"\"")) } else { c.clone() }
+            };
+            let mut s: String = t.iter().map(|(id, f)| format!("{} {}\n", id, f.iter().map(|c| cell(c)).collect::<Vec<_>>().join(","))).collect();
             if bad { s.push_str("x 名詞,*\n"); }
             s
         };
